@@ -70,11 +70,13 @@ def fam_symstorage(rnd: random.Random, ninputs: int = 10):
     nops = rnd.randint(2, 6)
     for _ in range(nops):
         L = rnd.choice(locs)
+        # the transient storage of the account is not symbolic: the same locations, transiently, start at zero
+        st, ld = ("TSTORE", "TLOAD") if rnd.random() < 0.25 else ("SSTORE", "SLOAD")
         if rnd.random() < 0.5:
             val = ("in", rnd.randrange(nin)) if rnd.random() < 0.6 else ("c", rnd.choice([0, 1, 7, M256 - 1]))
-            body += compile_expr(val) + compile_loc(L, rnd, 0, "runtime") + ["SSTORE"]
+            body += compile_expr(val) + compile_loc(L, rnd, 0, "runtime") + [st]
         else:
-            body += compile_loc(L, rnd, 0, "runtime") + ["SLOAD", ("PUSH", 32 * out), "MSTORE"]
+            body += compile_loc(L, rnd, 0, "runtime") + [ld, ("PUSH", 32 * out), "MSTORE"]
             out += 1
     if rnd.random() < 0.6:
         # a symbolic branch (on a bit of the last calldata word) before the final reads: the storage of both
